@@ -51,6 +51,8 @@ class ParanoiaMode:
     max_paths = 3000
 
     def inputs(self, B):
+        if B.concrete:
+            raise Undecided("leaf provenance has no concrete replay (covered by the bounded differential of C15)")
         mask = B.case("present_sections", 64)
         rowshape = B.case("row_shape", 4)
         d = {}
@@ -399,6 +401,8 @@ class MainWiring:
             E.SUMMARIES.update(saved)
 
     def inputs(self, B):
+        if B.concrete:
+            raise Undecided("main() over summarised callees has no concrete replay (covered by the C20 process-level harness)")
         cmd = COMMANDS[B.case("command", len(COMMANDS))]
         file = [None, Leaf("args.file")][B.case("file_given", 2)]
         fields = dict(command=cmd, testnet=B.bool("testnet"), paranoia=B.bool("paranoia"), account=Leaf("args.account"),
